@@ -8,6 +8,8 @@ Kernels (DESIGN.md section 4, C18; K6 / K7 are additions that run the whole prog
         K1:consumer:*   the three consumers (IntegerSdv validator, IntegerDdv validator, validation.evaluate) built
                         by the real integer parser: a validation error is *reported* (never an exception of another
                         class); with the non-negative restriction: reported iff n < 0, for every n in Z
+        K1:range:*      LINE-NUMBER-RANGE texts (characters symbolic) through the real range parser and validator: ill-formed
+                        ones are reported by validation, never an exception
         K1:site:*       real instructions (`timeout = E`, `exit-code == E`, `-max-depth E`, `-line-nums E` ...) parsed by
                         the real test-case parser and run by the real executor: VALIDATION_ERROR iff E is not an
                         acceptable integer, for every n in Z; never INTERNAL_ERROR
@@ -301,6 +303,110 @@ def k1_site(kind: int, sel: int, n: int) -> bool:
     return ob.post(status in ('PASS', 'FAIL'))
 
 
+# ---- K1:range  ill-formed LINE-NUMBER-RANGE expressions, characters symbolic
+
+REAL_K1_RANGE = (
+    'exactly_lib.impls.types.string_transformer.impl.filter.line_nums.resolvers._RangeParser',
+    'exactly_lib.impls.types.string_transformer.impl.filter.line_nums.resolvers._RangeValidator',
+    'exactly_lib.impls.types.string_transformer.impl.filter.line_nums.range_expr',
+    'exactly_lib.impls.types.integer.validation.evaluate',
+)
+K1R_ALPHABET = '1:- x'
+STUB_LITERALS = ('python_evaluate as seen from integer.validation: a pure-Python evaluator of the integer literals of the alphabet '
+                 '(optional white space, optional `-`, one or more `1`); everything else is NotAnIntegerException (contract: an '
+                 'integer literal denotes its integer, other texts of the alphabet are not Python expressions of type int)')
+
+
+def _literal(s: str):
+    """the integer denoted by s, or None: [space]* [-] 1+ [space]*"""
+    t = s.strip(' ')
+    if t.startswith('-'):
+        neg, d = True, t[1:]
+    else:
+        neg, d = False, t
+    if d == '':
+        return None
+    v = 0
+    for ch in d:
+        if ch != '1':
+            return None
+        v = v * 10 + 1
+    return -v if neg else v
+
+
+def _python_evaluate_literals(s: str) -> int:
+    from exactly_lib.impls.types.integer.evaluate_integer import NotAnIntegerException
+    v = _literal(s)
+    if v is None:
+        raise NotAnIntegerException(s, 'not a literal')
+    return v
+
+
+def _pre_k1_range(s: str) -> bool:
+    if len(s) != ob.case()['n']:
+        return False
+    for ch in s:
+        if ch not in K1R_ALPHABET:
+            return False
+    return True
+
+
+def _range_reference(s: str):
+    """What the manual says a LINE-NUMBER-RANGE is: INT, INT:, :INT or INT:INT.  -> tuple describing it, or None"""
+    if s.strip(' ') == '':
+        return None
+    parts = s.strip(' ').split(':')
+    if len(parts) == 1:
+        v = _literal(parts[0])
+        return None if v is None else ('single', v)
+    if len(parts) != 2:
+        return None
+    lo, up = parts
+    if lo == '' and up == '':
+        return None
+    if lo == '':
+        v = _literal(up)
+        return None if v is None else ('upper', v)
+    if up == '':
+        v = _literal(lo)
+        return None if v is None else ('lower', v)
+    a, b = _literal(lo), _literal(up)
+    if a is None or b is None:
+        return None
+    return ('both', a, b)
+
+
+def k1_range(s: str) -> bool:
+    """
+    pre: _pre_k1_range(s)
+    post: _
+    """
+    from exactly_lib.impls.types.integer import validation, evaluate_integer
+    from exactly_lib.impls.types.string_transformer.impl.filter.line_nums import resolvers, range_expr
+    validation.python_evaluate = _python_evaluate_literals
+    try:
+        v = resolvers._RangeValidator(s)
+        err = v.validate_pre_sds_if_applicable(None)
+        # any exception propagates: the obligation fails
+        r = v.range_after_validation
+    finally:
+        validation.python_evaluate = evaluate_integer.python_evaluate
+    exp = _range_reference(s)
+    if ob.case().get('oracle_bug') and exp is not None and exp[0] == 'upper':
+        exp = None
+    if exp is None:
+        return ob.post(err is not None and r is None)
+    if err is not None or r is None:
+        return ob.post(False)
+    if exp[0] == 'single':
+        return ob.post(isinstance(r, range_expr.SingleLineRange) and r.line_number == exp[1])
+    if exp[0] == 'lower':
+        return ob.post(isinstance(r, range_expr.LowerLimitRange) and r.lower_limit == exp[1])
+    if exp[0] == 'upper':
+        return ob.post(isinstance(r, range_expr.UpperLimitRange) and r.upper_limit == exp[1])
+    return ob.post(isinstance(r, range_expr.LowerAndUpperLimitRange) and r.lower_limit == exp[1] and r.upper_limit == exp[2])
+
+
 # =========================================================================== K2  the net around instruction parsers
 
 REAL_K2 = (
@@ -363,8 +469,6 @@ def _k2_expected_lines(rest: str, consumed: int):
     while len(out) > 1 and out[-1].strip() == '':
         out.pop()
     out[-1] = out[-1].rstrip()
-    if len(out) == 1 and out[0] == '' and False:
-        return [lines[0]]
     return out
 
 
@@ -642,8 +746,6 @@ def k3_replace(r: int, p: int, t: int, preserve: bool, selection: bool) -> bool:
         return ob.post(True)  # not reported and no failure on this text: nothing went wrong here
     pattern = re.compile(rx)
     exp = ''
-    for line in text.split('\n'):
-        pass
     parts = text.split('\n')
     lines_in = [x + '\n' for x in parts[:-1]] + ([parts[-1]] if parts[-1] != '' else [])
     for line in lines_in:
@@ -750,9 +852,9 @@ def k5_executor(cell: int, sel: int) -> bool:
     result_reporting.print_error_message_for_full_result(FilePrinter(sink), run.result)
     ev = exit_values.from_full_result(run.result.status)
     msg = sink.value()
+    # ... and the message carries what the failing step said
     return ob.post(ev.exit_code == cli.OUTCOMES[want] and ev.exit_identifier == want
-                   and ('vsym injected' in msg or 'vsym hard error' in msg or sel >= 0 and exc.NAMES[sel] in ('KeyError',) or
-                        type(the_exception).__name__ in msg))
+                   and ('vsym hard error' if sel < 0 else 'vsym injected') in msg)
 
 
 UNITS = ('execute_element', 'catch_internal_error')
@@ -1237,6 +1339,14 @@ def obligations(tier: str) -> List[Ob]:
                       entry='processors._Parser.apply -> full_execution.execute'))
     obs.append(Ob(name='K1:site:seeded-oracle-error', fn='k1_site', case=dict(quick=True, site='timeout', oracle_bug=True, n_bound=3),
                   kernel='K1', bound='seeded: timeout = 0 is claimed to be a validation error', timeout=600, expect=ob.REFUTE))
+    for n in range(0, (3 if quick else 6) + 1):
+        obs.append(Ob(name='K1:range:len%d' % n, fn='k1_range', case=dict(n=n), kernel='K1',
+                      bound='every LINE-NUMBER-RANGE text of exactly %d characters of {1, :, -, space, x}: rejected by validation iff it is '
+                            'not INT / INT: / :INT / INT:INT, otherwise the limits are the denoted integers' % n,
+                      timeout=900 if n <= 4 else 3000, real=REAL_K1_RANGE, stubs=(STUB_LITERALS,),
+                      entry='resolvers._RangeValidator(text).validate_pre_sds_if_applicable'))
+    obs.append(Ob(name='K1:range:seeded-oracle-error', fn='k1_range', case=dict(n=2, oracle_bug=True), kernel='K1',
+                  bound='seeded: `:INT` is claimed to be rejected', timeout=300, expect=ob.REFUTE))
     # ---- K2
     k2_cases = [('i', 0, 'quick' if quick else 'all'), ('i', 1, 'quick' if quick else 'all'), ('i', 2, 'mini' if quick else 'quick'), ('x', 1, 'mini'),
                 ('', 1, 'mini')]
